@@ -28,6 +28,7 @@ REQUIRED_COUNTERS = ['marker_files_checked', 'pair_gene_decisions',
                      'holm_running_max_decides',
                      'gene_list_approx_floors_off_cases',
                      'references_with_an_unexpressed_gene_block',
+                     'references_with_two_clusters_over_1290_cells',
                      'zero_variance_genes_kept_out_by_p_convention',
                      'marker_tables_over_200_entries_at_tiny_budget',
                      'recorded_markers_judged', 'strict_markers_expected',
@@ -71,6 +72,8 @@ def gen_cases(tier, seed):
             c['force'] = 'list-approx-nofloors'
         if i % 4 == 2:
             c['dead_block'] = True
+        if i % 8 == 7:
+            c['huge'] = True
         if i % 6 == 3:
             # genes with exactly zero variance in both clusters of a pair
             # and different means (statistics engineered to exact values)
@@ -83,7 +86,7 @@ def gen_cases(tier, seed):
     return cases
 
 
-def make_cells(rng, dup=False, dead_block=False, big=False):
+def make_cells(rng, dup=False, dead_block=False, big=False, huge=False):
     k = int(rng.integers(3, 8))
     n_genes = int(rng.integers(5, 40))
     if big:
@@ -95,7 +98,11 @@ def make_cells(rng, dup=False, dead_block=False, big=False):
     sizes = []
     for i in range(k):
         r = rng.random()
-        if big:
+        if huge and i < 2:
+            # two clusters of well over a thousand cells (n^3 no longer
+            # fits 32 bits)
+            sizes.append(int(rng.integers(1300, 2100)))
+        elif big:
             sizes.append(int(rng.integers(8, 16)))
         elif r < 0.15:
             sizes.append(1)
@@ -444,7 +451,10 @@ def run_case(spec, work):
     tmp.mkdir()
     names, X, labels, n_genes = make_cells(
         rng, dup=bool(spec.get('tune_p')),
-        dead_block=bool(spec.get('dead_block')), big=bool(spec.get('big')))
+        dead_block=bool(spec.get('dead_block')), big=bool(spec.get('big')),
+        huge=bool(spec.get('huge')))
+    if spec.get('huge'):
+        ctx.bump('references_with_two_clusters_over_1290_cells')
     if spec.get('dead_block'):
         ctx.bump('references_with_an_unexpressed_gene_block')
     genes = gen.gene_names(rng, n_genes)
